@@ -64,7 +64,9 @@ def cases(tier):
     for (k, big) in ([(257, 0), (300, 7)] if tier == 'quick' else [(257, 0), (300, 7), (257, 256), (513, 300), (520, 258)]):
         members = [{'m': (2 if i == big else 1), 'cap': 2, 'rounds': (2 if i == big else 1)} for i in range(k)]
         out.append({'cfg': {'scenario': 'adversarial', 'n': 2, 'x': 1, 'members': members, 'actions': ['VerifyOnly', 'RecoverAndVerify'], 'forced': [['final_eq', 0, True]]}, 'kind': 'verify',
-                    'name': 'batch of %d opaque proofs, the only aggregated member at %d' % (k, big)})
+                    'name': 'batch of %d opaque proofs, the only aggregated member at %d' % (k, big),
+                    # on the real crates a chunk of invalid proofs ends the call: the replay uses HONEST proofs of the same shape (every chunk is then reached)
+                    'replay_cfg': {'scenario': 'batch', 'n': 2, 'x': 1, 'members': [{'m': (2 if i == big else 1), 'cap': 2} for i in range(k)], 'actions': ['VerifyOnly'], 'replay_seeds': 1}})
     # statements built through the constructors from Pedersen generators whose vector length disagrees with their degree tag
     for x in (1, 2, 6):
         for ts in ({'op': 'g_append'}, {'op': 'g_drop_last'}, {'op': 'gc_append'}, {'op': 'gc_drop_last'}, {'op': 'degree_tag', 'x': x + 1 if x < 6 else 5}, {'op': 'degree_tag', 'x': x - 1 if x > 1 else 2}):
@@ -98,7 +100,8 @@ def analyse(ctx, case, run, S):
     size = sum(len(mm['elems']) for mm in o['members']) + sum(cfg['n'] * mm['m'] for mm in o['members'])
     for v in o.get('verify') or []:
         ctx.expect(v['result'] != 'panic', 'C16:verify-panic:' + case['name'].split(' (')[0].split('=')[0].split(' at ')[0],
-                   '%s: verification PANICKED in %s' % (case['name'], v['action']), cfg, 'any_panic')
+                   '%s: verification PANICKED in %s' % (case['name'], v['action']), cfg, 'any_panic',
+                   {'replay_cfg': case['replay_cfg'], 'replay_seeds': 1} if case.get('replay_cfg') else None)
         if 'work' in v:
             ctx.expect(v['work'] <= 600 * size + 20000, 'C16:work', '%s: %d arithmetic nodes for an input of size %d' % (case['name'], v['work'], size), cfg, None)
     if len(ctx.case_samples) < 2:
